@@ -127,3 +127,9 @@ pub fn glv_validate_market_token_balance(glv: &crate::states::Glv, market_token:
 pub fn glv_update_market_token_balance(glv: &mut crate::states::Glv, market_token: &Pubkey, new_balance: u64) -> Result<()> {
     glv.update_market_token_balance(market_token, new_balance)
 }
+
+/// Attach a builder to an order and record a builder fee amount on it (see `Order::record_builder_fee`).
+pub fn order_record_builder_fee(order: &mut crate::states::Order, builder: &Pubkey, amount: u64) -> Result<()> {
+    order.builder = *builder;
+    order.record_builder_fee(amount)
+}
